@@ -79,18 +79,21 @@ func ndExpr(r *rand.Rand) string {
 	case 3:
 		return fmt.Sprintf("hex(%s(%d))", caseMix(r, "randomblob"), 1+r.IntN(12))
 	case 4:
-		return caseMix(r, "datetime") + "(" + now + ")"
+		return caseMix(r, "datetime") + "(" + now + mods(r) + ")"
 	case 5:
-		return caseMix(r, "date") + "(" + now + ", '" + pick(r, "+1 day", "-3 months", "start of month", "weekday 0", "+17 minutes") + "')"
+		return caseMix(r, "date") + "(" + now + ", '" + pick(r, "+1 day", "-3 months", "start of month", "weekday 0", "+17 minutes") + "'" + mods(r) + ")"
 	case 6:
-		return caseMix(r, "time") + "(" + now + ")"
+		return caseMix(r, "time") + "(" + now + mods(r) + ")"
 	case 7:
-		return caseMix(r, "julianday") + "(" + now + ")"
+		return caseMix(r, "julianday") + "(" + now + mods(r) + ")"
 	case 8:
-		return caseMix(r, "unixepoch") + "(" + now + ")"
+		return caseMix(r, "unixepoch") + "(" + now + mods(r) + ")"
 	case 9:
-		return caseMix(r, "strftime") + "('" + pick(r, "%Y-%m-%d %H:%M:%f", "%s", "%J", "%H:%M:%S", "%Y-%j") + "', " + now + ")"
+		return caseMix(r, "strftime") + "('" + pick(r, "%Y-%m-%d %H:%M:%f", "%s", "%J", "%H:%M:%S", "%Y-%j") + "', " + now + mods(r) + ")"
 	case 10:
+		if r.IntN(2) == 0 {
+			return caseMix(r, "timediff") + "('2031-05-06 07:08:09', " + now + ")"
+		}
 		return caseMix(r, "timediff") + "(" + now + ", '2020-01-01 00:00:00')"
 	case 11:
 		return "(" + caseMix(r, "julianday") + "(" + now + ") - 2440587.5) * 86400.0"
@@ -99,6 +102,18 @@ func ndExpr(r *rand.Rand) string {
 	default:
 		return "coalesce(NULL, " + caseMix(r, "random") + "() / 2)"
 	}
+}
+
+// mods returns 0-2 extra modifier arguments (", 'x'" each).
+func mods(r *rand.Rand) string {
+	all := []string{"+7 days", "-1 month", "start of day", "start of year", "+90 minutes", "utc", "subsec", "-13 hours"}
+	switch r.IntN(4) {
+	case 0:
+		return ", '" + pick(r, all...) + "'"
+	case 1:
+		return ", '" + pick(r, all...) + "', '" + pick(r, all...) + "'"
+	}
+	return ""
 }
 
 func implicitExpr(r *rand.Rand) string {
